@@ -112,7 +112,7 @@ pub enum Op {
     /// a backlog of `n` cheap commands on this thread's queue (no overload: the ring keeps room)
     Bulk { n: u16 },
     /// `n` whole traces in a row on this thread: root created and finished (2 forced/plain commands each)
-    Volley { n: u8 },
+    Volley { n: u16 },
     /// scope-limit episode: n local spans/events/props in the current scope
     Burst { n: u16, kind: u8 },
     /// nest `n` local-parent scopes / collectors (popped by the normaliser)
@@ -221,6 +221,8 @@ pub enum Template {
     /// a vthread fills its ring completely with harmless commands and exits at once (nothing is
     /// parked, no signal is pending); other vthreads and cycles run around it
     FullExit,
+    /// more forced commands parked behind a full ring than the ring itself holds
+    ParkedBacklog,
 }
 
 impl Profile {
@@ -433,7 +435,7 @@ pub fn op_strategy(p: &Profile) -> BoxedStrategy<Op> {
     }
     add(K::Fill, (0u8..4).prop_map(|leave| Op::Fill { leave }).boxed());
     add(K::Bulk, prop_oneof![2 => 100u16..9500, 2 => 4000u16..4200, 1 => 8100u16..8300].prop_map(|n| Op::Bulk { n }).boxed());
-    add(K::Volley, prop_oneof![2 => 1u8..8, 3 => 60u8..110].prop_map(|n| Op::Volley { n }).boxed());
+    add(K::Volley, prop_oneof![2 => 1u16..8, 3 => 60u16..110, 2 => 250u16..262].prop_map(|n| Op::Volley { n }).boxed());
     add(
         K::Burst,
         (0u16..60, 0u8..3).prop_map(|(n, kind)| Op::Burst { n, kind }).boxed(),
@@ -464,7 +466,7 @@ fn template_strategy(p: &Profile, t: Template) -> BoxedStrategy<Program> {
             proptest::collection::vec(op, 0..6),
             2u8..8,
             sched,
-            prop_oneof![2 => Just(0u8), 1 => 1u8..8, 2 => 60u8..110],
+            prop_oneof![2 => Just(0u16), 1 => 1u16..8, 2 => 60u16..110],
         )
             .prop_map(move |(cancelable, leave, do_cancel, child_first, pre, post, other, cycles, schedule, volley)| {
                 let mut t0 = vec![root.clone()];
@@ -585,6 +587,15 @@ fn template_strategy(p: &Profile, t: Template) -> BoxedStrategy<Program> {
                 t0.push(Op::RootFromCtx { ctx: 65535, via_tp, s: StrSeed { c: 0, l: 3 } });
                 t0.extend(tail);
                 Program { cancelable, threads: vec![t0], cycles, schedule, fine: false }
+            })
+            .boxed(),
+        Template::ParkedBacklog => (canc, proptest::collection::vec(op.clone(), 0..3), proptest::collection::vec(op.clone(), 0..5), 10250u16..10400, 1u8..4, sched)
+            .prop_map(move |(cancelable, pre, t1, n, cycles, schedule)| {
+                let mut t0 = pre;
+                t0.retain(|o| !matches!(o, Op::Fill { .. } | Op::Volley { .. } | Op::Exit));
+                t0.push(Op::Fill { leave: 0 });
+                t0.push(Op::Volley { n });
+                Program { cancelable, threads: vec![t0, t1], cycles, schedule, fine: false }
             })
             .boxed(),
         Template::FullExit => (canc, proptest::collection::vec(op.clone(), 0..4), proptest::collection::vec(op.clone(), 0..6), proptest::collection::vec(op.clone(), 0..6), 0u8..2, 1u8..6, sched)
